@@ -6,7 +6,12 @@ from checks import enginelib as E
 from checks.enginelib import charts, shrink
 from checks import c01, c02
 
-THEOREMS = []
+P = "UscxmlVerif.Properties.C19."
+THEOREMS = [
+    (P + "targets_resolve", "proved", "for EVERY document: if the validator (as modelled) reports no fatal issue then every id in every transition's target attribute is the non-empty id of an element of the document, and no target attribute is empty - getState cannot come back empty-handed"),
+    (P + "initial_resolves", "proved", "... and every id in an initial attribute names a state-like descendant of the element that carries it"),
+    (P + "statePass_seen", "proved", "the validator's seenStates map only ever holds ids of elements of the document (invariant of the first pass)"),
+]
 LEAN_FILES = ["UscxmlVerif.Properties.C19"]
 FINISH = {"level": "exploration"}
 
